@@ -573,6 +573,9 @@ func runConc(p ConcProg) *prog.Result {
 
 func genConc(t *rapid.T) ConcProg {
 	p := ConcProg{Signed: rapid.Bool().Draw(t, "signed")}
+	if raceEnabled {
+		p.Signed = false
+	}
 	n := rapid.IntRange(1, 6).Draw(t, "npairs")
 	used := map[string]bool{}
 	for i := 0; i < n; i++ {
